@@ -5,7 +5,8 @@
    State: the Tree object behind m.m ([gst (K * V)]: node heap, t.root, t.size, t.max); the Map is
    one made by NewFunc (m.m != nil, flag false), which starts as the EMPTY tree with beta =
    omap_beta on any heap h0 (NewFunc itself is not translated: stree.New is not).
-   Operations: Set, Delete, Clear, GetOK, Get, Len (the translated Map methods).  A failing call
+   Operations: Set, Delete, Clear, GetOK, Get, Len, Keys (the translated Map methods; the nil-ness
+   of the slice Keys returns is not represented: nil and empty are both []).  A failing call
    would leave the object as it was and answer GoPanic / GoFuel; the theorem says none does.
 
    omap_step_sim: one step answers what the model's [OM.step] answers and re-establishes osim
@@ -14,7 +15,7 @@
    of the generated code = the output of the key-sorted association list of Omap/OmapSpec.v. *)
 From Coq Require Import ZArith List Bool Arith Lia.
 From Mds Require Import Common.FnRt Common.FnHeap GenTie.TieLib GenTie.StreeTieBase GenTie.StreeSep
-  GenTie.StreeSource GenTie.StreeSourceSim GenTie.OmapTieBase GenTie.OmapTieRead GenTie.OmapTieWrite.
+  GenTie.StreeSource GenTie.StreeSourceSim GenTie.OmapTieBase GenTie.OmapTieRead GenTie.OmapTieWrite GenTie.OmapTieSeq.
 From Mds Require Gen.FnOmap Omap.OmapModel Omap.OmapSpec Omap.OmapProofs Gen.OmapConst.
 Import ListNotations.
 Local Open Scope Z_scope.
@@ -27,13 +28,15 @@ Inductive gop (K V : Type) : Type :=
 | GClear
 | GGetOK (k : K)
 | GGet (k : K)
-| GLen.
+| GLen
+| GKeys.
 Arguments GSet {K V} k v.
 Arguments GDelete {K V} k.
 Arguments GClear {K V}.
 Arguments GGetOK {K V} k.
 Arguments GGet {K V} k.
 Arguments GLen {K V}.
+Arguments GKeys {K V}.
 
 Inductive gres (K V : Type) : Type :=
 | GoBool (b : bool)
@@ -41,6 +44,7 @@ Inductive gres (K V : Type) : Type :=
 | GoGetOK (v : V) (ok : bool)
 | GoGet (v : V)
 | GoInt (z : Z)
+| GoKeys (ks : list K)
 | GoPanic (k : panic_kind)
 | GoFuel.
 Arguments GoBool {K V} b.
@@ -48,6 +52,7 @@ Arguments GoUnit {K V}.
 Arguments GoGetOK {K V} v ok.
 Arguments GoGet {K V} v.
 Arguments GoInt {K V} z.
+Arguments GoKeys {K V} ks.
 Arguments GoPanic {K V} k.
 Arguments GoFuel {K V}.
 
@@ -59,6 +64,7 @@ Definition to_mop {K V : Type} (o : gop K V) : OM.op K V :=
   | GClear => OM.OClear
   | GGetOK k | GGet k => OM.OGetOK k
   | GLen => OM.OLen
+  | GKeys => OM.OKeys
   end.
 
 (* an output of the model / the reference in Go's return conventions *)
@@ -68,6 +74,7 @@ Definition oview {K V : Type} (o : gop K V) (x : OM.out K V) : gres K V :=
   | OM.RUnit => GoUnit
   | OM.RGet v ok => match o with GGet _ => GoGet v | _ => GoGetOK v ok end
   | OM.RInt z => GoInt z
+  | OM.RKeys ks => GoKeys (match ks with Some l => l | None => [] end)
   | _ => GoFuel
   end.
 
@@ -101,6 +108,7 @@ Definition ostep (st : gst kv) (o : gop K V) : gst kv * gres K V :=
   | GGetOK k => fin st (O.GetOK st k false (g_Get kcmp zk zv) zv) (fun r => GoGetOK (fst r) (snd r))
   | GGet k => fin st (O.Get st k false (g_Get kcmp zk zv) zv) GoGet
   | GLen => fin st (O.Len st false g_Len) GoInt
+  | GKeys => fin st (O.Keys st false g_Len g_Inorder (fuel_for (g_size st))) GoKeys
   end.
 
 Fixpoint orun (st : gst kv) (ops : list (gop K V)) : list (gres K V) :=
@@ -131,7 +139,7 @@ Lemma omap_step_sim (st : gst kv) (t : SM.Tree kv) (o : gop K V) :
   exists st' t', ostep st o = (st', oview o (snd (mstep (Some t) (to_mop o)))) /\
                  fst (mstep (Some t) (to_mop o)) = Some t' /\ osim false st' (Some t').
 Proof.
-  intros Hs. destruct o as [k v|k| |k|k|]; cbn [to_mop OM.step OmapSource.ostep].
+  intros Hs. destruct o as [k v|k| |k|k| |]; cbn [to_mop OM.step OmapSource.ostep].
   - destruct (set_tie kcmp HK limit zk zv b h0 st t k v Hs) as [t' [bb [st' [M [G1 Hs']]]]].
     rewrite M, G1. exists st', t'. split; [reflexivity|]. split; [reflexivity|exact Hs'].
   - destruct (delete_tie kcmp HK zk zv b h0 false st (Some t) k Hs) as [m' [bb [st' [M [G1 Hs']]]]].
@@ -144,6 +152,8 @@ Proof.
   - rewrite (get_tie kcmp zk zv b h0 false st (Some t) k Hs). unfold OM.mget.
     destruct (OM.mget_ok K V kcmp zv (Some t) k) as [v ok]. exists st, t. split; [reflexivity|]. split; [reflexivity|exact Hs].
   - rewrite (len_tie kcmp b h0 false st (Some t) Hs).
+    exists st, t. split; [reflexivity|]. split; [reflexivity|exact Hs].
+  - destruct (keys_tie kcmp b h0 false st (Some t) Hs) as [r [M G1]]. rewrite M, G1.
     exists st, t. split; [reflexivity|]. split; [reflexivity|exact Hs].
 Qed.
 
